@@ -993,7 +993,7 @@ def gen_regs(facts, write_if_changed, GEN, REPO):
     L.append("Definition gen_reg_counts : Z * Z := (%d, %d).   (* (triples, translated) *)" % (len(triples), len(ok)))
     names = list(tr.helper_order) + [tr.done[k][1] for k in tr.order]
     L.append("\n(* unfold every generated definition and every intrinsic NAME down to the families of Model/Intrinsics.v *)")
-    L.append("Ltac unfold_gen :=\n  cbv beta iota zeta delta [\n    %s\n    %s ]." % (
+    L.append("Ltac unfold_gen :=\n  cbv beta iota zeta delta [\n    da db dc dd de df dg dh\n    %s\n    %s ]." % (
         "\n    ".join(" ".join(names[i:i + 6]) for i in range(0, len(names), 6)),
         "\n    ".join(" ".join(tr.used_intr[i:i + 8]) for i in range(0, len(tr.used_intr), 8))))
     write_if_changed(os.path.join(GEN, "GenRegs.v"), "\n".join(L) + "\n")
